@@ -24,16 +24,23 @@ pub fn run(args: &[String]) -> i32 {
             .unwrap_or(false);
         let ir_json = req.get("ir_json").and_then(|v| v.as_bool()).unwrap_or(false);
         let disc = req.get("disc").and_then(|v| v.as_bool()).unwrap_or(false);
-        let src = match std::fs::read_to_string(&path) {
-            Ok(s) => s,
-            Err(e) => {
-                emit(&json!({"id": id, "verdict": "io", "msg": e.to_string()}));
-                continue;
+        // {"text": .., "dir": ..}: compile the text as <dir>/main.gom without writing it (dir should exist and hold no .gom files)
+        let (path, src) = if let Some(t) = req.get("text").and_then(|t| t.as_str()) {
+            let dir = req.get("dir").and_then(|d| d.as_str()).unwrap_or("/nonexistent");
+            (PathBuf::from(dir).join("main.gom"), t.to_string())
+        } else {
+            match std::fs::read_to_string(&path) {
+                Ok(s) => (path, s),
+                Err(e) => {
+                    emit(&json!({"id": id, "verdict": "io", "msg": e.to_string()}));
+                    continue;
+                }
             }
         };
         let t0 = Instant::now();
         let p2 = path.clone();
         let src_len = src.len();
+        let src_copy = src.clone();
         let r = guarded(Duration::from_millis(limit_ms), move || {
             let discovery = if disc { discovery_of(&p2, &src) } else { Value::Null };
             let mut out = compile_one(&p2, &src, dumps, core_json, ir_json);
@@ -49,8 +56,23 @@ pub fn run(args: &[String]) -> i32 {
             }
             Guarded::Timeout => json!({"verdict": "timeout"}),
         };
+        // positions carried by diagnostics: inside the text and on character boundaries
+        let mut boundaries_ok: Vec<Value> = Vec::new();
+        if let Some(ds) = out.get("diags").and_then(|d| d.as_array()) {
+            for d in ds {
+                if let (Some(s), Some(e)) = (d["s"].as_u64(), d["e"].as_u64()) {
+                    let (s, e) = (s as usize, e as usize);
+                    if s > e || e > src_copy.len() || !src_copy.is_char_boundary(s) || !src_copy.is_char_boundary(e) {
+                        boundaries_ok.push(json!({"s": s, "e": e, "msg": d["msg"]}));
+                    }
+                }
+            }
+        }
         out["id"] = id;
         out["src_len"] = Value::from(src_len);
+        if !boundaries_ok.is_empty() {
+            out["bad_positions"] = Value::from(boundaries_ok);
+        }
         out["ms"] = Value::from(t0.elapsed().as_millis() as u64);
         emit(&out);
     }
